@@ -30,7 +30,7 @@ def generate(plan, wd):
     return scen, r
 
 
-def run_asm(ctx, drivers, wd, nrand):
+def run_asm(ctx, drivers, wd, nrand, variants=None):
     """drivers: list of ("reasm"|"tcpasm").  Returns (stats, bad list [(driver, badrecord, scenario_ops, events)])."""
     bins = {d: vlib.go_build("./cmd/" + d) for d in drivers}
     stats = {"gen": [], "scenarios": 0, "events": 0, "tstates": 0, "nbad": 0, "samples": []}
@@ -48,7 +48,8 @@ def run_asm(ctx, drivers, wd, nrand):
             open(sp, "w").write("\n".join(part) + "\n")
             for d in drivers:
                 tp = os.path.join(wd, "trace-%s-%d.ndjson" % (d, len(jobs)))
-                args = [bins[d], "-scenarios", sp, "-units", str(plan["L"]), "-trace", tp, "-seed", str(ctx.seed)]
+                nv = (variants or {}).get(d, 2)
+                args = [bins[d], "-scenarios", sp, "-units", str(plan["L"]), "-trace", tp, "-seed", str(ctx.seed), "-variants", str(nv)]
                 if first:
                     args += ["-rand", str(nrand)]
                 jobs.append((d, part, tp, args))
@@ -98,7 +99,7 @@ def evidence(pid, ctx, V, stats, t0, drivers, rule_extra=""):
            "generator_models": stats["gen"], "traces_validated_against_impl": stats["scenarios"],
            "trace_events_validated": stats["events"], "rejected_scenarios_all_reasons": stats["nbad"],
            "evaluations": stats["scenarios"], "distinct_nontrivial": stats["scenarios"],
-           "rule": "every behaviour of ReasmGen.tla within the bounds (segments = all intervals of the stream, SYN, FIN, FlushAll, age flushes) is replayed under 2 seeded configurations (page limit, KeepFrom policy, forced start, ISN incl. wrap positions, bytes per unit up to multi-page) plus random multi-connection scenarios; each (behaviour, configuration) is distinct. " + rule_extra,
+           "rule": "every behaviour of ReasmGen.tla within the bounds (segments = all intervals of the stream, SYN, FIN, FlushAll, age flushes) is replayed under 1-2 seeded configurations (page limit, KeepFrom policy, forced start, ISN incl. wrap positions, bytes per unit up to multi-page) plus random multi-connection scenarios; each (behaviour, configuration) is distinct. " + rule_extra,
            "assemblers": drivers, "samples": stats["samples"], "exhaustive": True}
     vlib.write_evidence(pid, ctx.tier, ctx.seed, "model_checking", cov, time.time() - t0, len(V.violations),
                         ["stream positions are inferred from delivered content (content encodes offset)",
